@@ -6,12 +6,17 @@
    hash alike -- for nodes whose cached hashes are coherent (0 or the computed hash), which is
    the state the library maintains; (3) the unrestricted reflexivity statement is refuted at
    the depth cap (finding K10); (4) history independence on the same fragment: computing and caching the
-   hash of either or both operands never changes the answer of an equality query.  Sets, maps, external
+   hash of either or both operands never changes the answer of an equality query; (5) for WHOLE DOCUMENTS of the
+   reader fragment (integers, keywords, lists, vectors) read independently from any two buffers: the two values are
+   equal exactly when the terms have the same normal form -- in particular independently read copies of one text are
+   equal, and a list equals the vector of the same elements.  Sets, maps, external
    values, and histories of lookups / string fetches are carried by the correspondence check + oracles
    (all pairs/triples/histories). *)
 From Coq Require Import ZArith NArith List Bool.
 From Coq.Floats Require Import SpecFloat.
 From Verif Require Import Lanes Common Values Floats Equality EqBasics EqEquiv Configs History.
+From Coq Require Import NArith.
+From Verif Require Import Scan Reader FlagProofs RoundTrip RoundTripWs RoundTripEq.
 Import ListNotations.
 
 Section C07.
@@ -64,6 +69,20 @@ Theorem C07_equal_iff_same_normal_form_partial : forall f a b va,
 Proof. exact (equal_iff_nf c xe xh). Qed.
 End C07.
 
+
+(* independently read documents of the reader fragment (Properties_C03): equality of the two values read is equality
+   of the normal forms of the two terms -- copies of the same text are equal, (1 2) = [1 2], 1 <> 1N ... *)
+Theorem C07_read_documents_equal_iff_partial : forall c o m1 m2 a1 a2, In c all_cfgs -> awf a1 -> awf a2 ->
+  (tdepth (erase a1) <= max_depth)%nat -> (tdepth (erase a2) <= max_depth)%nat ->
+  slice m1 0 (List.length (prg a1)) = prg a1 -> slice m2 0 (List.length (prg a2)) = prg a2 ->
+  exists r1 s1 n1 r2 s2 n2,
+    run_doc c o m1 (N.of_nat (List.length (prg a1))) = Ret r1 s1 /\ r_value r1 = Some n1 /\
+    run_doc c o m2 (N.of_nat (List.length (prg a2))) = Ret r2 s2 /\ r_value r2 = Some n2 /\
+    (equal c no_ext_equal n1 n2 = true <-> canon c (erase a1) = canon c (erase a2)).
+Proof. exact documents_equal_iff. Qed.
+Example C07_list_equals_vector : forall c l, canon c (TList l) = canon c (TVec l).
+Proof. reflexivity. Qed.
+
 (* the unrestricted statement "two structurally identical values are equal" is false of the
    code as it stands: two copies of a vector nested 100 deep (finding K10); one level less is fine *)
 Theorem C07_reflexive_refuted :
@@ -77,6 +96,7 @@ Example C07_fragment_inhabited :
 Proof. eexists. vm_compute. reflexivity. Qed.
 
 Print Assumptions C07_equal_unchanged_by_hashing_partial.
+Print Assumptions C07_read_documents_equal_iff_partial.
 Print Assumptions C07_metadata_not_in_equality.
 Print Assumptions C07_metadata_not_in_hash.
 Print Assumptions C07_nan_and_zeros.
